@@ -2,6 +2,7 @@
 //! engine trait, panic capture.
 
 pub mod evidence;
+pub mod hasher;
 pub mod rng;
 pub mod runner;
 pub mod shrink;
